@@ -28,6 +28,10 @@ type Sources struct {
 	uuidN    uint64
 
 	rnd *splitSource
+
+	// Coarse > 1: a clock of limited resolution — the time advances only with every Coarse-th read, so that things that
+	// happen shortly after each other carry the same time
+	Coarse int64
 }
 
 type splitSource struct{ s uint64 }
@@ -78,7 +82,11 @@ func (s *Sources) Now() time.Time {
 	if s.budget > 0 && s.inCall > s.budget {
 		panic(BudgetExceeded{Calls: s.inCall})
 	}
-	t := s.base.Add(time.Duration(s.ticks) * s.step)
+	n := s.ticks
+	if s.Coarse > 1 {
+		n = n / s.Coarse * s.Coarse
+	}
+	t := s.base.Add(time.Duration(n) * s.step)
 	s.ticks++
 	return t
 }
